@@ -89,7 +89,7 @@ func (S) Info() scen.Info {
 			"reference model":      "abstract tree with expanded links + reference updater (replace / insert / delete / append / create-parents / transparent link crossing)",
 		},
 		QuickUnits: 24000, ThoroughUnits: 3000000, QuickSecs: 40, ThoroughSecs: 1200,
-		ProbeKeys: []string{"probe.below_link", "probe.below_two_links", "probe.delete_map", "probe.insert_key", "probe.append", "probe.create_parents", "probe.identity", "probe.expected_error", "probe.typed_transform", "probe.replacement_from_other_implementation", "probe.selector_reused", "probe.float_zero_sign_flipped_below_link", "probe.walk_transform", "probe.walk_transform_selector_matched", "probe.int_backed_segment", "probe.fault_made_transform_fail", "probe.fault_survived", "probe.history_ge_3"},
+		ProbeKeys: []string{"probe.walk_transform_across_links", "probe.chooser_map_prototype", "probe.below_link", "probe.below_two_links", "probe.delete_map", "probe.insert_key", "probe.append", "probe.create_parents", "probe.identity", "probe.expected_error", "probe.typed_transform", "probe.replacement_from_other_implementation", "probe.selector_reused", "probe.float_zero_sign_flipped_below_link", "probe.walk_transform", "probe.walk_transform_selector_matched", "probe.int_backed_segment", "probe.fault_made_transform_fail", "probe.fault_survived", "probe.history_ge_3"},
 		EventsKey: "events",
 	}
 }
@@ -183,6 +183,55 @@ func eqExpanded(a, b *model.V) bool {
 		return true
 	}
 	return model.Equal(a, b)
+}
+
+// flatten replaces every loaded link of an expanded tree by its content (dangling links stay).
+func flatten(v *model.V) *model.V {
+	if v == nil {
+		return nil
+	}
+	if v.K == model.Link && len(v.Vals) == 1 {
+		return flatten(v.Vals[0])
+	}
+	c := *v
+	if len(v.Vals) > 0 && v.K != model.Link {
+		c.Vals = make([]*model.V, len(v.Vals))
+		for i, x := range v.Vals {
+			c.Vals[i] = flatten(x)
+		}
+	}
+	return &c
+}
+
+// pathMark is the reference for the path-marking walk over an expanded tree: every int becomes a
+// string naming its path; a loaded link is replaced by its marked content (links are transparent in
+// paths). A block whose root IS a link is a scalar block to the walk (links are only crossed where
+// they sit inside a map or list), so what lies behind such a redirect stays as it is.
+func pathMark(v *model.V, pre []string) *model.V {
+	switch v.K {
+	case model.Link:
+		if len(v.Vals) == 1 {
+			if v.Vals[0].K == model.Link {
+				return flatten(v.Vals[0])
+			}
+			return pathMark(v.Vals[0], pre)
+		}
+		return v
+	case model.Int:
+		return model.StringV("int@" + strings.Join(pre, "/"))
+	case model.Map, model.List:
+		c := *v
+		c.Vals = make([]*model.V, len(v.Vals))
+		for i, x := range v.Vals {
+			seg := strconv.Itoa(i)
+			if v.K == model.Map {
+				seg = v.Keys[i]
+			}
+			c.Vals[i] = pathMark(x, append(append([]string(nil), pre...), seg))
+		}
+		return &c
+	}
+	return v
 }
 
 // strip returns the raw (unexpanded) view.
@@ -441,7 +490,7 @@ func safe(f func()) (pan string) {
 	return ""
 }
 
-var kindNames = []string{"replace", "delete", "identity", "insert-key", "append", "create-parents", "missing-parents-refused", "walk-transform", "delete-list-element", "walk-transform-selector"}
+var kindNames = []string{"replace", "delete", "identity", "insert-key", "append", "create-parents", "missing-parents-refused", "walk-transform", "delete-list-element", "walk-transform-selector", "walk-transform-across-links"}
 
 func (S) RunTape(t *sim.Tape, st *sim.Stats, keepLog bool) *sim.Outcome {
 	o := &sim.Outcome{}
@@ -480,7 +529,23 @@ func (S) RunTape(t *sim.Tape, st *sim.Stats, keepLog bool) *sim.Outcome {
 		}
 		return nil
 	}
-	w.cfg = &traversal.Config{LinkSystem: w.lsys, LinkTargetNodePrototypeChooser: func(datamodel.Link, linking.LinkContext) (datamodel.NodePrototype, error) {
+	// the prototype chooser either always answers Any, or (as applications that know their data do)
+	// the specific map / list prototype for blocks that are a dag-cbor map / list
+	specificChooser := t.Bool("cfg.chooser.specific")
+	w.cfg = &traversal.Config{LinkSystem: w.lsys, LinkTargetNodePrototypeChooser: func(l datamodel.Link, _ linking.LinkContext) (datamodel.NodePrototype, error) {
+		if specificChooser {
+			if cl, ok := l.(cidlink.Link); ok && cl.Prefix().Codec == 0x71 {
+				if b, ok := w.raw(l); ok && len(b) > 0 {
+					switch {
+					case b[0] >= 0xa0 && b[0] <= 0xbb:
+						st.Inc("probe.chooser_map_prototype")
+						return basicnode.Prototype.Map, nil
+					case b[0] >= 0x80 && b[0] <= 0x9b:
+						return basicnode.Prototype.List, nil
+					}
+				}
+			}
+		}
 		return basicnode.Prototype.Any, nil
 	}}
 
@@ -556,7 +621,7 @@ func (S) RunTape(t *sim.Tape, st *sim.Stats, keepLog bool) *sim.Outcome {
 				// ---- choose a transform against the current model ----
 				var ps []pinfo
 				allPaths(cl.exp, nil, 0, &ps)
-				kind := []int{0, 0, 0, 1, 2, 3, 4, 5, 6, 7, 8, 9, 9, 9, 9}[t.Choice(15, "x.kind")]
+				kind := []int{0, 0, 0, 1, 2, 3, 4, 5, 6, 7, 8, 9, 9, 9, 9, 10, 10}[t.Choice(17, "x.kind")]
 				var segs []string
 				act := action{}
 				repl := func() *model.V {
@@ -674,6 +739,8 @@ func (S) RunTape(t *sim.Tape, st *sim.Stats, keepLog bool) *sim.Outcome {
 					act.repl = repl()
 				case 7, 9:
 					ok = !hasLinks(strip(cl.exp))
+				case 10:
+					ok = hasLinks(strip(cl.exp)) && !w.faulty
 				}
 				if cl.typed {
 					// type-correct transforms only (a typed builder rightly refuses anything else)
@@ -824,6 +891,26 @@ func (S) RunTape(t *sim.Tape, st *sim.Stats, keepLog bool) *sim.Outcome {
 					if len(matched) > 0 {
 						st.Inc("probe.walk_transform_selector_matched")
 					}
+				} else if kind == 10 {
+					// Walking transform of a root WITH links, every link crossed: each int becomes a string naming the
+					// path the callback was called at (so equal blocks at different positions get different results).
+					// Whether the rewritten blocks are stored and re-linked is finding F5 and not judged here: the
+					// result and the reference are compared with every loaded link replaced by its content.
+					desc = "walk-transform-across-links"
+					want = pathMark(before, nil)
+					ssb := builder.NewSelectorSpecBuilder(basicnode.Prototype.Any)
+					sel, _ := ssb.ExploreRecursive(selector.RecursionLimitNone(), ssb.ExploreUnion(ssb.Matcher(), ssb.ExploreAll(ssb.ExploreRecursiveEdge()))).Selector()
+					pan = safe(func() {
+						res, err = traversal.Progress{Cfg: w.cfg}.WalkTransforming(cl.root, sel, func(p traversal.Progress, n datamodel.Node) (datamodel.Node, error) {
+							s.Yield("callback")
+							s.Log.Add(fmt.Sprintf("CB c%d %q %v", c, p.Path.String(), n.Kind()))
+							if n.Kind() == datamodel.Kind_Int {
+								return basicnode.NewString("int@" + p.Path.String()), nil
+							}
+							return n, nil
+						})
+					})
+					st.Inc("probe.walk_transform_across_links")
 				} else if kind == 7 {
 					// walking transform on a link-free root: every int n -> n+1, every string upper-cased
 					desc = "walk-transform"
@@ -968,13 +1055,18 @@ func (S) RunTape(t *sim.Tape, st *sim.Stats, keepLog bool) *sim.Outcome {
 					o.Fail("result-unreadable", sig, "%s: the result cannot be read back: err=%v panic=%s", desc, gerr, pan)
 					continue
 				}
-				if !eqExpanded(got, want) {
+				if kind == 10 {
+					if !eqExpanded(flatten(got), want) {
+						o.Fail("wrong-result", sig, "%s on %s\n  gave (links replaced by their content): %s\n  want: %s", desc, beforeRaw, show(flatten(got)), show(want))
+						continue
+					}
+				} else if !eqExpanded(got, want) {
 					o.Fail("wrong-result", sig, "%s on %s\n  gave: %s\n  want: %s", desc, beforeRaw, show(got), show(want))
 					continue
 				}
 				gotRaw := strip(got)
 				// off-path positions keep their links; blocks written are at most those on the path
-				if kind != 7 && kind != 9 {
+				if kind != 7 && kind != 9 && kind != 10 {
 					if msg := offPathUnchanged(beforeRaw, gotRaw, segs, w); msg != "" {
 						o.Fail("off-path-changed", sig, "%s: %s", desc, msg)
 					}
